@@ -1,7 +1,7 @@
 META = dict(
     level='exploration',
     rule=('cases = (operation, sandbox-side start, application-side start, extent, element type, size-operand form); operations memset, memcpy (tainted->tainted, '
-          'raw->tainted), memcmp (both forms), copy_and_verify_range, copy_and_verify_buffer_address, unverified_safe_pointer_because (6 element types), '
+          'raw->tainted), memcmp (both forms), copy_and_verify_range, copy_and_verify_buffer_address, unverified_safe_pointer_because (6 element types; receiver = the tainted pointer and = a pointer cell in sandbox memory), '
           'copy_and_verify_string (terminated / unterminated at the end of the region, two verifier kinds), copy_memory_or_grant_access, copy_memory_or_deny_access '
           '(copy branch; 3 element types); sandbox starts {null, offsets 0,1,2, interior, last 3 bytes}; application starts {null, arena begin/middle/end abutting '
           'PROT_NONE pages, inside the other sandbox, inside the same sandbox, just before the sandbox}; extents {0..3, remaining-2..remaining+2, size-2..size+2, '
